@@ -162,6 +162,14 @@ def opBin (a : Array Rat) : String :=
   let o := binImage img (i a 0)
   s!"{o.n0} {o.n1} {o.n2} | " ++ " ".intercalate (o.data.toList.map Canon.canon)
 
+/-- `binaxis k b₁ … b_k data...` → the axis after the history of binnings `b₁, …, b_k` (`Model.binHist`). -/
+def opBinAxis (a : Array Rat) : String :=
+  let k := (i a 0).toNat
+  let bs := ((a.extract 1 (1 + k)).toList.map fun r => r.floor.toNat)
+  let xs := (a.extract (1 + k) a.size).toList
+  if bs.any (· == 0) then "bad-arg" else
+  " ".intercalate ((binHist bs xs).map Canon.canon)
+
 /-! `table n  op nargs args...  op nargs args...` : a history of table operations on the table
 whose rows carry the tags `0..n-1` (position, orientation and features each hold the row tag). After
 every operation the three containers are printed if they agree. -/
@@ -578,6 +586,7 @@ def dispatch (name : String) (a : Array Rat) : Option String :=
   | "split" => some (opSplit a)
   | "fscLabels" => some (opFscLabels a)
   | "bin" => some (opBin a)
+  | "binaxis" => some (opBinAxis a)
   | "table" => some (opTable a)
   | "frame" => some (opFrame a)
   | "pose" => some (opPose a)
